@@ -1212,24 +1212,17 @@ fn self_checks(al: &Arc<Alphabets>) -> Value {
     let ix = CaseIx { api: 0, ctor: 0, method: 2, url: 5, headers: 5, body: 2, query: 0, ct: 0, stream: None, expect: 0 };
     let body_spec = &body_spec_of(ix, al);
     let exp = expected_for(ix, al);
-    let mut headers: Vec<crux_http::protocol::HttpHeader> = exp
-        .headers
-        .iter()
-        .map(|(n, v)| crux_http::protocol::HttpHeader { name: n.clone(), value: v.clone() })
-        .collect();
-    headers.push(crux_http::protocol::HttpHeader {
-        name: "Content-Type".into(),
-        value: "text/plain; charset=UTF-8".into(),
+    let mut op = HttpRequest::get(exp.url.clone());
+    op.method(exp.method);
+    for (n, v) in &exp.headers {
+        op.header(n.clone(), v.clone());
+    }
+    op.header("Content-Type", "text/plain; charset=UTF-8");
+    op.body(match &exp.body {
+        BodyExpect::Bytes(b) => b.clone(),
+        _ => mc_kit::machinery_error("canary case must have a byte body"),
     });
-    let op = HttpRequest {
-        method: exp.method.to_string(),
-        url: exp.url.clone(),
-        headers,
-        body: match &exp.body {
-            BodyExpect::Bytes(b) => b.clone(),
-            _ => mc_kit::machinery_error("canary case must have a byte body"),
-        },
-    };
+    let op = op.build();
     if let Some(f) = compare(&exp, body_spec, &op) {
         mc_kit::machinery_error(&format!("C14 canary: faithful rendering rejected: {f:?}"));
     }
